@@ -1,5 +1,5 @@
 // auto-generated: "lalrpop 0.23.1"
-// sha3: 7adf67c9b3ebf627b8aa8310f84d80b117beaa17835312ea1a18dc4127cde591
+// sha3: cd99a151bd010464dbfb226300681de2692085f2d9b80eb2fcd3af601191b660
 use crate::rt::*;
 #[allow(unused_extern_crates)]
 extern crate lalrpop_util as __lalrpop_util;
@@ -10,7 +10,7 @@ extern crate alloc;
 
 #[rustfmt::skip]
 #[allow(explicit_outlives_requirements, non_snake_case, non_camel_case_types, unused_mut, unused_variables, unused_imports, unused_parens, clippy::needless_lifetimes, clippy::type_complexity, clippy::needless_return, clippy::too_many_arguments, clippy::match_single_binding, clippy::clone_on_copy, clippy::unit_arg)]
-mod __parse__S {
+mod __parse__N0 {
 
     use crate::rt::*;
     #[allow(unused_extern_crates)]
@@ -29,62 +29,40 @@ mod __parse__S {
     }
     const __ACTION: &[i8] = &[
         // State 0
-        5, -3, -3, -3,
+        3, 4, 0, 0, 0,
         // State 1
-        0, 6, -5, -5,
+        0, 0, 0, 0, 0,
         // State 2
-        0, 0, 8, -7,
+        0, 0, 0, 0, 0,
         // State 3
-        0, 0, 0, 0,
-        // State 4
-        0, -4, -4, -4,
-        // State 5
-        0, 0, -6, -6,
-        // State 6
-        0, 0, 0, 9,
-        // State 7
-        0, 0, 0, -8,
-        // State 8
-        0, 0, 0, 0,
+        0, 0, 0, 0, 0,
     ];
     fn __action(state: i8, integer: usize) -> i8 {
-        __ACTION[(state as usize) * 4 + integer]
+        __ACTION[(state as usize) * 5 + integer]
     }
     const __EOF_ACTION: &[i8] = &[
         // State 0
         0,
         // State 1
-        0,
+        -8,
         // State 2
-        0,
+        -4,
         // State 3
-        -10,
-        // State 4
-        0,
-        // State 5
-        0,
-        // State 6
-        0,
-        // State 7
-        0,
-        // State 8
-        -9,
+        -3,
     ];
     fn __goto(state: i8, nt: usize) -> i8 {
         match nt {
             2 => 1,
-            3 => 2,
-            4 => 6,
-            5 => 3,
             _ => 0,
         }
     }
     #[allow(clippy::needless_raw_string_hashes)]
     const __TERMINAL: &[&str] = &[
-        r###""a""###,
-        r###""b""###,
-        r###""c""###,
-        r###""d""###,
+        r###""t0""###,
+        r###""t1""###,
+        r###""t2""###,
+        r###""t3""###,
+        r###""t4""###,
     ];
     fn __expected_tokens(__state: i8) -> alloc::vec::Vec<alloc::string::String> {
         __TERMINAL.iter().enumerate().filter_map(|(index, terminal)| {
@@ -151,7 +129,7 @@ mod __parse__S {
 
         #[inline]
         fn error_action(&self, state: i8) -> i8 {
-            __action(state, 4 - 1)
+            __action(state, 5 - 1)
         }
 
         #[inline]
@@ -221,6 +199,7 @@ mod __parse__S {
             Tok('b', _, _, _) if true => Some(1),
             Tok('c', _, _, _) if true => Some(2),
             Tok('d', _, _, _) if true => Some(3),
+            Tok('e', _, _, _) if true => Some(4),
             _ => None,
         }
     }
@@ -232,7 +211,7 @@ mod __parse__S {
     ) -> __Symbol<>
     {
         #[allow(clippy::manual_range_patterns)]match __token_index {
-            0 | 1 | 2 | 3 => __Symbol::Variant0(__token),
+            0 | 1 | 2 | 3 | 4 => __Symbol::Variant0(__token),
             _ => unreachable!(),
         }
     }
@@ -257,7 +236,7 @@ mod __parse__S {
             }
             2 => {
                 __state_machine::SimulatedReduce::Reduce {
-                    states_to_pop: 0,
+                    states_to_pop: 1,
                     nonterminal_produced: 2,
                 }
             }
@@ -275,40 +254,28 @@ mod __parse__S {
             }
             5 => {
                 __state_machine::SimulatedReduce::Reduce {
-                    states_to_pop: 1,
+                    states_to_pop: 2,
                     nonterminal_produced: 3,
                 }
             }
             6 => {
                 __state_machine::SimulatedReduce::Reduce {
-                    states_to_pop: 0,
-                    nonterminal_produced: 4,
-                }
-            }
-            7 => {
-                __state_machine::SimulatedReduce::Reduce {
                     states_to_pop: 1,
-                    nonterminal_produced: 4,
+                    nonterminal_produced: 3,
                 }
             }
-            8 => {
-                __state_machine::SimulatedReduce::Reduce {
-                    states_to_pop: 4,
-                    nonterminal_produced: 5,
-                }
-            }
-            9 => __state_machine::SimulatedReduce::Accept,
+            7 => __state_machine::SimulatedReduce::Accept,
             _ => panic!("invalid reduction index {__reduce_index}")
         }
     }
-    pub struct SParser {
+    pub struct N0Parser {
         _priv: (),
     }
 
-    impl Default for SParser { fn default() -> Self { Self::new() } }
-    impl SParser {
-        pub fn new() -> SParser {
-            SParser {
+    impl Default for N0Parser { fn default() -> Self { Self::new() } }
+    impl N0Parser {
+        pub fn new() -> N0Parser {
+            N0Parser {
                 _priv: (),
             }
         }
@@ -396,13 +363,7 @@ mod __parse__S {
                 __reduce6(__lookahead_start, __symbols, core::marker::PhantomData::<()>)
             }
             7 => {
-                __reduce7(__lookahead_start, __symbols, core::marker::PhantomData::<()>)
-            }
-            8 => {
-                __reduce8(__lookahead_start, __symbols, core::marker::PhantomData::<()>)
-            }
-            9 => {
-                // __S = S => ActionFn(0);
+                // __N0 = N0 => ActionFn(0);
                 let __sym0 = __pop_Variant2(__symbols);
                 let __start = __sym0.0.clone();
                 let __end = __sym0.2.clone();
@@ -459,10 +420,10 @@ mod __parse__S {
         _: core::marker::PhantomData<()>,
     ) -> (usize, usize)
     {
-        // @L =  => ActionFn(9);
+        // @L =  => ActionFn(7);
         let __start = __lookahead_start.cloned().or_else(|| __symbols.last().map(|s| s.2.clone())).unwrap_or_default();
         let __end = __start.clone();
-        let __nt = super::__action9::<>(&__start, &__end);
+        let __nt = super::__action7::<>(&__start, &__end);
         __symbols.push((__start, __Symbol::Variant1(__nt), __end));
         (0, 0)
     }
@@ -473,10 +434,10 @@ mod __parse__S {
         _: core::marker::PhantomData<()>,
     ) -> (usize, usize)
     {
-        // @R =  => ActionFn(8);
+        // @R =  => ActionFn(6);
         let __start = __lookahead_start.cloned().or_else(|| __symbols.last().map(|s| s.2.clone())).unwrap_or_default();
         let __end = __start.clone();
-        let __nt = super::__action8::<>(&__start, &__end);
+        let __nt = super::__action6::<>(&__start, &__end);
         __symbols.push((__start, __Symbol::Variant1(__nt), __end));
         (0, 1)
     }
@@ -487,12 +448,13 @@ mod __parse__S {
         _: core::marker::PhantomData<()>,
     ) -> (usize, usize)
     {
-        // A =  => ActionFn(17);
-        let __start = __lookahead_start.cloned().or_else(|| __symbols.last().map(|s| s.2.clone())).unwrap_or_default();
-        let __end = __start.clone();
-        let __nt = super::__action17::<>(&__start, &__end);
+        // N0 = "t1" => ActionFn(13);
+        let __sym0 = __pop_Variant0(__symbols);
+        let __start = __sym0.0.clone();
+        let __end = __sym0.2.clone();
+        let __nt = super::__action13::<>(__sym0);
         __symbols.push((__start, __Symbol::Variant2(__nt), __end));
-        (0, 2)
+        (1, 2)
     }
     fn __reduce3<
     >(
@@ -501,11 +463,11 @@ mod __parse__S {
         _: core::marker::PhantomData<()>,
     ) -> (usize, usize)
     {
-        // A = "a" => ActionFn(18);
+        // N0 = "t0" => ActionFn(14);
         let __sym0 = __pop_Variant0(__symbols);
         let __start = __sym0.0.clone();
         let __end = __sym0.2.clone();
-        let __nt = super::__action18::<>(__sym0);
+        let __nt = super::__action14::<>(__sym0);
         __symbols.push((__start, __Symbol::Variant2(__nt), __end));
         (1, 2)
     }
@@ -516,10 +478,10 @@ mod __parse__S {
         _: core::marker::PhantomData<()>,
     ) -> (usize, usize)
     {
-        // B =  => ActionFn(19);
+        // N1 =  => ActionFn(15);
         let __start = __lookahead_start.cloned().or_else(|| __symbols.last().map(|s| s.2.clone())).unwrap_or_default();
         let __end = __start.clone();
-        let __nt = super::__action19::<>(&__start, &__end);
+        let __nt = super::__action15::<>(&__start, &__end);
         __symbols.push((__start, __Symbol::Variant2(__nt), __end));
         (0, 3)
     }
@@ -530,13 +492,15 @@ mod __parse__S {
         _: core::marker::PhantomData<()>,
     ) -> (usize, usize)
     {
-        // B = "b" => ActionFn(20);
-        let __sym0 = __pop_Variant0(__symbols);
+        // N1 = N1, "t1" => ActionFn(16);
+        assert!(__symbols.len() >= 2);
+        let __sym1 = __pop_Variant0(__symbols);
+        let __sym0 = __pop_Variant2(__symbols);
         let __start = __sym0.0.clone();
-        let __end = __sym0.2.clone();
-        let __nt = super::__action20::<>(__sym0);
+        let __end = __sym1.2.clone();
+        let __nt = super::__action16::<>(__sym0, __sym1);
         __symbols.push((__start, __Symbol::Variant2(__nt), __end));
-        (1, 3)
+        (2, 3)
     }
     fn __reduce6<
     >(
@@ -545,50 +509,17 @@ mod __parse__S {
         _: core::marker::PhantomData<()>,
     ) -> (usize, usize)
     {
-        // C =  => ActionFn(21);
-        let __start = __lookahead_start.cloned().or_else(|| __symbols.last().map(|s| s.2.clone())).unwrap_or_default();
-        let __end = __start.clone();
-        let __nt = super::__action21::<>(&__start, &__end);
-        __symbols.push((__start, __Symbol::Variant2(__nt), __end));
-        (0, 4)
-    }
-    fn __reduce7<
-    >(
-        __lookahead_start: Option<&i64>,
-        __symbols: &mut alloc::vec::Vec<(i64,__Symbol<>,i64)>,
-        _: core::marker::PhantomData<()>,
-    ) -> (usize, usize)
-    {
-        // C = "c" => ActionFn(22);
+        // N1 = "t0" => ActionFn(17);
         let __sym0 = __pop_Variant0(__symbols);
         let __start = __sym0.0.clone();
         let __end = __sym0.2.clone();
-        let __nt = super::__action22::<>(__sym0);
+        let __nt = super::__action17::<>(__sym0);
         __symbols.push((__start, __Symbol::Variant2(__nt), __end));
-        (1, 4)
-    }
-    fn __reduce8<
-    >(
-        __lookahead_start: Option<&i64>,
-        __symbols: &mut alloc::vec::Vec<(i64,__Symbol<>,i64)>,
-        _: core::marker::PhantomData<()>,
-    ) -> (usize, usize)
-    {
-        // S = A, B, C, "d" => ActionFn(23);
-        assert!(__symbols.len() >= 4);
-        let __sym3 = __pop_Variant0(__symbols);
-        let __sym2 = __pop_Variant2(__symbols);
-        let __sym1 = __pop_Variant2(__symbols);
-        let __sym0 = __pop_Variant2(__symbols);
-        let __start = __sym0.0.clone();
-        let __end = __sym3.2.clone();
-        let __nt = super::__action23::<>(__sym0, __sym1, __sym2, __sym3);
-        __symbols.push((__start, __Symbol::Variant2(__nt), __end));
-        (4, 5)
+        (1, 3)
     }
 }
 #[allow(unused_imports)]
-pub use self::__parse__S::SParser;
+pub use self::__parse__N0::N0Parser;
 
 #[allow(clippy::too_many_arguments, clippy::needless_lifetimes, clippy::just_underscores_and_digits, clippy::extra_unused_type_parameters)]
 fn __action0<
@@ -603,81 +534,62 @@ fn __action0<
 fn __action1<
 >(
     (_, l, _): (i64, i64, i64),
-    (_, c0, _): (i64, Tree, i64),
-    (_, c1, _): (i64, Tree, i64),
-    (_, c2, _): (i64, Tree, i64),
-    (_, c3, _): (i64, Tok, i64),
+    (_, pL0, _): (i64, i64, i64),
+    (_, c0, _): (i64, Tok, i64),
     (_, r, _): (i64, i64, i64),
 ) -> Tree
 {
-    node("S#0", l, r, vec![Tree::from(c0), Tree::from(c1), Tree::from(c2), Tree::from(c3)])
+    { probe("N0#0", 0, 'L', pL0); node("N0#0", l, r, vec![Tree::from(c0)]) }
 }
 
 #[allow(clippy::too_many_arguments, clippy::needless_lifetimes, clippy::just_underscores_and_digits, clippy::extra_unused_type_parameters)]
 fn __action2<
 >(
     (_, l, _): (i64, i64, i64),
+    (_, c0, _): (i64, Tok, i64),
     (_, r, _): (i64, i64, i64),
 ) -> Tree
 {
-    node("A#0", l, r, vec![])
+    node("N0#1", l, r, vec![Tree::from(c0)])
 }
 
 #[allow(clippy::too_many_arguments, clippy::needless_lifetimes, clippy::just_underscores_and_digits, clippy::extra_unused_type_parameters)]
 fn __action3<
 >(
     (_, l, _): (i64, i64, i64),
-    (_, c0, _): (i64, Tok, i64),
     (_, r, _): (i64, i64, i64),
 ) -> Tree
 {
-    node("A#1", l, r, vec![Tree::from(c0)])
+    node("N1#0", l, r, vec![])
 }
 
 #[allow(clippy::too_many_arguments, clippy::needless_lifetimes, clippy::just_underscores_and_digits, clippy::extra_unused_type_parameters)]
 fn __action4<
 >(
     (_, l, _): (i64, i64, i64),
+    (_, pR0, _): (i64, i64, i64),
+    (_, c0, _): (i64, Tree, i64),
+    (_, c1, _): (i64, Tok, i64),
     (_, r, _): (i64, i64, i64),
 ) -> Tree
 {
-    node("B#0", l, r, vec![])
+    { probe("N1#1", 0, 'R', pR0); node("N1#1", l, r, vec![Tree::from(c0), Tree::from(c1)]) }
 }
 
 #[allow(clippy::too_many_arguments, clippy::needless_lifetimes, clippy::just_underscores_and_digits, clippy::extra_unused_type_parameters)]
 fn __action5<
 >(
     (_, l, _): (i64, i64, i64),
+    (_, pL0, _): (i64, i64, i64),
     (_, c0, _): (i64, Tok, i64),
     (_, r, _): (i64, i64, i64),
 ) -> Tree
 {
-    node("B#1", l, r, vec![Tree::from(c0)])
-}
-
-#[allow(clippy::too_many_arguments, clippy::needless_lifetimes, clippy::just_underscores_and_digits, clippy::extra_unused_type_parameters)]
-fn __action6<
->(
-    (_, l, _): (i64, i64, i64),
-    (_, r, _): (i64, i64, i64),
-) -> Tree
-{
-    node("C#0", l, r, vec![])
-}
-
-#[allow(clippy::too_many_arguments, clippy::needless_lifetimes, clippy::just_underscores_and_digits, clippy::extra_unused_type_parameters)]
-fn __action7<
->(
-    (_, l, _): (i64, i64, i64),
-    (_, c0, _): (i64, Tok, i64),
-    (_, r, _): (i64, i64, i64),
-) -> Tree
-{
-    node("C#1", l, r, vec![Tree::from(c0)])
+    { probe("N1#2", 0, 'L', pL0); node("N1#2", l, r, vec![Tree::from(c0)]) }
 }
 
 #[allow(clippy::needless_lifetimes, clippy::clone_on_copy)]
-fn __action8<
+fn __action6<
 >(
     __lookbehind: &i64,
     __lookahead: &i64,
@@ -687,13 +599,65 @@ fn __action8<
 }
 
 #[allow(clippy::needless_lifetimes, clippy::clone_on_copy)]
-fn __action9<
+fn __action7<
 >(
     __lookbehind: &i64,
     __lookahead: &i64,
 ) -> i64
 {
     __lookahead.clone()
+}
+
+#[allow(clippy::too_many_arguments, clippy::needless_lifetimes,
+    clippy::just_underscores_and_digits, clippy::clone_on_copy, clippy::unit_arg)]
+fn __action8<
+>(
+    __0: (i64, Tok, i64),
+    __1: (i64, i64, i64),
+) -> Tree
+{
+    let __start0 = __0.0.clone();
+    let __end0 = __0.0.clone();
+    let __start1 = __0.0.clone();
+    let __end1 = __0.0.clone();
+    let __temp0 = __action7(
+        &__start0,
+        &__end0,
+    );
+    let __temp0 = (__start0, __temp0, __end0);
+    let __temp1 = __action7(
+        &__start1,
+        &__end1,
+    );
+    let __temp1 = (__start1, __temp1, __end1);
+    __action1(
+        __temp0,
+        __temp1,
+        __0,
+        __1,
+    )
+}
+
+#[allow(clippy::too_many_arguments, clippy::needless_lifetimes,
+    clippy::just_underscores_and_digits, clippy::clone_on_copy, clippy::unit_arg)]
+fn __action9<
+>(
+    __0: (i64, Tok, i64),
+    __1: (i64, i64, i64),
+) -> Tree
+{
+    let __start0 = __0.0.clone();
+    let __end0 = __0.0.clone();
+    let __temp0 = __action7(
+        &__start0,
+        &__end0,
+    );
+    let __temp0 = (__start0, __temp0, __end0);
+    __action2(
+        __temp0,
+        __0,
+        __1,
+    )
 }
 
 #[allow(clippy::too_many_arguments, clippy::needless_lifetimes,
@@ -705,12 +669,12 @@ fn __action10<
 {
     let __start0 = __0.0.clone();
     let __end0 = __0.0.clone();
-    let __temp0 = __action9(
+    let __temp0 = __action7(
         &__start0,
         &__end0,
     );
     let __temp0 = (__start0, __temp0, __end0);
-    __action2(
+    __action3(
         __temp0,
         __0,
     )
@@ -720,34 +684,15 @@ fn __action10<
     clippy::just_underscores_and_digits, clippy::clone_on_copy, clippy::unit_arg)]
 fn __action11<
 >(
-    __0: (i64, Tok, i64),
-    __1: (i64, i64, i64),
-) -> Tree
-{
-    let __start0 = __0.0.clone();
-    let __end0 = __0.0.clone();
-    let __temp0 = __action9(
-        &__start0,
-        &__end0,
-    );
-    let __temp0 = (__start0, __temp0, __end0);
-    __action3(
-        __temp0,
-        __0,
-        __1,
-    )
-}
-
-#[allow(clippy::too_many_arguments, clippy::needless_lifetimes,
-    clippy::just_underscores_and_digits, clippy::clone_on_copy, clippy::unit_arg)]
-fn __action12<
->(
     __0: (i64, i64, i64),
+    __1: (i64, Tree, i64),
+    __2: (i64, Tok, i64),
+    __3: (i64, i64, i64),
 ) -> Tree
 {
     let __start0 = __0.0.clone();
     let __end0 = __0.0.clone();
-    let __temp0 = __action9(
+    let __temp0 = __action7(
         &__start0,
         &__end0,
     );
@@ -755,6 +700,39 @@ fn __action12<
     __action4(
         __temp0,
         __0,
+        __1,
+        __2,
+        __3,
+    )
+}
+
+#[allow(clippy::too_many_arguments, clippy::needless_lifetimes,
+    clippy::just_underscores_and_digits, clippy::clone_on_copy, clippy::unit_arg)]
+fn __action12<
+>(
+    __0: (i64, Tok, i64),
+    __1: (i64, i64, i64),
+) -> Tree
+{
+    let __start0 = __0.0.clone();
+    let __end0 = __0.0.clone();
+    let __start1 = __0.0.clone();
+    let __end1 = __0.0.clone();
+    let __temp0 = __action7(
+        &__start0,
+        &__end0,
+    );
+    let __temp0 = (__start0, __temp0, __end0);
+    let __temp1 = __action7(
+        &__start1,
+        &__end1,
+    );
+    let __temp1 = (__start1, __temp1, __end1);
+    __action5(
+        __temp0,
+        __temp1,
+        __0,
+        __1,
     )
 }
 
@@ -763,20 +741,18 @@ fn __action12<
 fn __action13<
 >(
     __0: (i64, Tok, i64),
-    __1: (i64, i64, i64),
 ) -> Tree
 {
-    let __start0 = __0.0.clone();
-    let __end0 = __0.0.clone();
-    let __temp0 = __action9(
+    let __start0 = __0.2.clone();
+    let __end0 = __0.2.clone();
+    let __temp0 = __action6(
         &__start0,
         &__end0,
     );
     let __temp0 = (__start0, __temp0, __end0);
-    __action5(
-        __temp0,
+    __action8(
         __0,
-        __1,
+        __temp0,
     )
 }
 
@@ -784,19 +760,19 @@ fn __action13<
     clippy::just_underscores_and_digits, clippy::clone_on_copy, clippy::unit_arg)]
 fn __action14<
 >(
-    __0: (i64, i64, i64),
+    __0: (i64, Tok, i64),
 ) -> Tree
 {
-    let __start0 = __0.0.clone();
-    let __end0 = __0.0.clone();
-    let __temp0 = __action9(
+    let __start0 = __0.2.clone();
+    let __end0 = __0.2.clone();
+    let __temp0 = __action6(
         &__start0,
         &__end0,
     );
     let __temp0 = (__start0, __temp0, __end0);
-    __action6(
-        __temp0,
+    __action9(
         __0,
+        __temp0,
     )
 }
 
@@ -804,63 +780,13 @@ fn __action14<
     clippy::just_underscores_and_digits, clippy::clone_on_copy, clippy::unit_arg)]
 fn __action15<
 >(
-    __0: (i64, Tok, i64),
-    __1: (i64, i64, i64),
-) -> Tree
-{
-    let __start0 = __0.0.clone();
-    let __end0 = __0.0.clone();
-    let __temp0 = __action9(
-        &__start0,
-        &__end0,
-    );
-    let __temp0 = (__start0, __temp0, __end0);
-    __action7(
-        __temp0,
-        __0,
-        __1,
-    )
-}
-
-#[allow(clippy::too_many_arguments, clippy::needless_lifetimes,
-    clippy::just_underscores_and_digits, clippy::clone_on_copy, clippy::unit_arg)]
-fn __action16<
->(
-    __0: (i64, Tree, i64),
-    __1: (i64, Tree, i64),
-    __2: (i64, Tree, i64),
-    __3: (i64, Tok, i64),
-    __4: (i64, i64, i64),
-) -> Tree
-{
-    let __start0 = __0.0.clone();
-    let __end0 = __0.0.clone();
-    let __temp0 = __action9(
-        &__start0,
-        &__end0,
-    );
-    let __temp0 = (__start0, __temp0, __end0);
-    __action1(
-        __temp0,
-        __0,
-        __1,
-        __2,
-        __3,
-        __4,
-    )
-}
-
-#[allow(clippy::too_many_arguments, clippy::needless_lifetimes,
-    clippy::just_underscores_and_digits, clippy::clone_on_copy, clippy::unit_arg)]
-fn __action17<
->(
     __lookbehind: &i64,
     __lookahead: &i64,
 ) -> Tree
 {
     let __start0 = __lookbehind.clone();
     let __end0 = __lookahead.clone();
-    let __temp0 = __action8(
+    let __temp0 = __action6(
         &__start0,
         &__end0,
     );
@@ -872,126 +798,50 @@ fn __action17<
 
 #[allow(clippy::too_many_arguments, clippy::needless_lifetimes,
     clippy::just_underscores_and_digits, clippy::clone_on_copy, clippy::unit_arg)]
-fn __action18<
+fn __action16<
+>(
+    __0: (i64, Tree, i64),
+    __1: (i64, Tok, i64),
+) -> Tree
+{
+    let __start0 = __0.0.clone();
+    let __end0 = __0.0.clone();
+    let __start1 = __1.2.clone();
+    let __end1 = __1.2.clone();
+    let __temp0 = __action6(
+        &__start0,
+        &__end0,
+    );
+    let __temp0 = (__start0, __temp0, __end0);
+    let __temp1 = __action6(
+        &__start1,
+        &__end1,
+    );
+    let __temp1 = (__start1, __temp1, __end1);
+    __action11(
+        __temp0,
+        __0,
+        __1,
+        __temp1,
+    )
+}
+
+#[allow(clippy::too_many_arguments, clippy::needless_lifetimes,
+    clippy::just_underscores_and_digits, clippy::clone_on_copy, clippy::unit_arg)]
+fn __action17<
 >(
     __0: (i64, Tok, i64),
 ) -> Tree
 {
     let __start0 = __0.2.clone();
     let __end0 = __0.2.clone();
-    let __temp0 = __action8(
-        &__start0,
-        &__end0,
-    );
-    let __temp0 = (__start0, __temp0, __end0);
-    __action11(
-        __0,
-        __temp0,
-    )
-}
-
-#[allow(clippy::too_many_arguments, clippy::needless_lifetimes,
-    clippy::just_underscores_and_digits, clippy::clone_on_copy, clippy::unit_arg)]
-fn __action19<
->(
-    __lookbehind: &i64,
-    __lookahead: &i64,
-) -> Tree
-{
-    let __start0 = __lookbehind.clone();
-    let __end0 = __lookahead.clone();
-    let __temp0 = __action8(
+    let __temp0 = __action6(
         &__start0,
         &__end0,
     );
     let __temp0 = (__start0, __temp0, __end0);
     __action12(
-        __temp0,
-    )
-}
-
-#[allow(clippy::too_many_arguments, clippy::needless_lifetimes,
-    clippy::just_underscores_and_digits, clippy::clone_on_copy, clippy::unit_arg)]
-fn __action20<
->(
-    __0: (i64, Tok, i64),
-) -> Tree
-{
-    let __start0 = __0.2.clone();
-    let __end0 = __0.2.clone();
-    let __temp0 = __action8(
-        &__start0,
-        &__end0,
-    );
-    let __temp0 = (__start0, __temp0, __end0);
-    __action13(
         __0,
-        __temp0,
-    )
-}
-
-#[allow(clippy::too_many_arguments, clippy::needless_lifetimes,
-    clippy::just_underscores_and_digits, clippy::clone_on_copy, clippy::unit_arg)]
-fn __action21<
->(
-    __lookbehind: &i64,
-    __lookahead: &i64,
-) -> Tree
-{
-    let __start0 = __lookbehind.clone();
-    let __end0 = __lookahead.clone();
-    let __temp0 = __action8(
-        &__start0,
-        &__end0,
-    );
-    let __temp0 = (__start0, __temp0, __end0);
-    __action14(
-        __temp0,
-    )
-}
-
-#[allow(clippy::too_many_arguments, clippy::needless_lifetimes,
-    clippy::just_underscores_and_digits, clippy::clone_on_copy, clippy::unit_arg)]
-fn __action22<
->(
-    __0: (i64, Tok, i64),
-) -> Tree
-{
-    let __start0 = __0.2.clone();
-    let __end0 = __0.2.clone();
-    let __temp0 = __action8(
-        &__start0,
-        &__end0,
-    );
-    let __temp0 = (__start0, __temp0, __end0);
-    __action15(
-        __0,
-        __temp0,
-    )
-}
-
-#[allow(clippy::too_many_arguments, clippy::needless_lifetimes,
-    clippy::just_underscores_and_digits, clippy::clone_on_copy, clippy::unit_arg)]
-fn __action23<
->(
-    __0: (i64, Tree, i64),
-    __1: (i64, Tree, i64),
-    __2: (i64, Tree, i64),
-    __3: (i64, Tok, i64),
-) -> Tree
-{
-    let __start0 = __3.2.clone();
-    let __end0 = __3.2.clone();
-    let __temp0 = __action8(
-        &__start0,
-        &__end0,
-    );
-    let __temp0 = (__start0, __temp0, __end0);
-    __action16(
-        __0,
-        __1,
-        __2,
-        __3,
         __temp0,
     )
 }
